@@ -7,7 +7,7 @@ import z3
 from mirsym import engine
 from mirsym.interp import Agg, to_z3
 from mirsym.models import dot, cross
-from .common import (Call, rvec, zdot, vsub, vadd, hyps_of, side_obligations, model_floats, vec_from, fmt_vec,
+from .common import (ground_model, Call, rvec, zdot, vsub, vadd, hyps_of, side_obligations, model_floats, vec_from, fmt_vec,
                      all_vars, nice_model)
 
 LEVEL = 'other'
@@ -161,7 +161,13 @@ def decide(run, kind, label, hyps, goal, variables, timeout=60):
     """prove hyps => goal; on a counterexample, replay natively"""
     v, m = run.prove('C19 %s: %s' % (kind, label), hyps, z3.Not(goal), timeout=timeout, on_sat='caller',
                      sample={'function': kind, 'equation': label})
-    if v != 'sat':
+    if v == 'unknown':
+        # no verdict on the general query: look for a counterexample on the lattice of small half-integers (a much easier query for the
+        # solver); a model found there is replayed natively like any other, no model leaves the obligation inconclusive
+        m = ground_model(hyps, z3.Not(goal), variables, seed=run.seed) or nice_model(run, label, hyps, z3.Not(goal), variables, timeout=30)
+        if m is None:
+            return
+    elif v != 'sat':
         return
     m2 = nice_model(run, label, hyps, z3.Not(goal), variables) or m
     vals = model_floats(m2, variables)
